@@ -30,8 +30,8 @@ LSub   == [n \in LNames |-> IF n = "a" THEN {"b"} ELSE {}]
 LInit  == <<"a">>
 LInitTok == [n \in {"a"} |-> "t0"]
 
-CallAdd    == \E n \in UNames, c \in MCToks, rep \in BOOLEAN, enc \in {"none", "enc"} : BeginAdd(n, c, rep, enc, "zlib")
-CallAddFix == \E n \in UNames, c \in MCToks : BeginAdd(n, c, TRUE, "fix", "none")
+CallAdd    == \E n \in UNames, c \in MCToks, rep \in BOOLEAN, enc \in {"none", "enc"} : BeginAdd(n, c, rep, enc, "zlib", FALSE)
+CallAddFix == \E n \in UNames, c \in MCToks : BeginAdd(n, c, TRUE, "fix", "none", FALSE)
 CallRemove == \E n \in UNames : BeginRemove(n)
 CallRename == \E a \in UNames, b \in UNames : BeginRename(a, b)
 
@@ -46,7 +46,7 @@ CodeNowSpec == HInit /\ [][CodeNowNext]_hvars
 \* ... and restricted to what is believed correct now (V1/V2, listfile present, no encryption, no name
 \* spelled inside another): this machine must satisfy everything the design does (_codeOK.cfg)
 NoSub == [n \in UNames |-> {}]
-CallAddPlain == \E n \in UNames, c \in MCToks, rep \in BOOLEAN : BeginAdd(n, c, rep, "none", "zlib")
+CallAddPlain == \E n \in UNames, c \in MCToks, rep \in BOOLEAN : BeginAdd(n, c, rep, "none", "zlib", FALSE)
 CodeOkNext == CallAddPlain \/ CallRemove \/ CallRename \/ CodeSteps \/ CodeSyncs
 CodeOkSpec == HInit /\ [][CodeOkNext]_hvars
 \* every started call finishes (checked in the small configuration)
